@@ -388,6 +388,8 @@ func cmdCheck(args []string) int {
 		fmt.Println(l)
 	}
 	wall := time.Since(t0).Seconds()
+	// obligations that are recorded known findings are reported separately, not as part of the proved set
+	nObl -= len(knownHit)
 	writeEvidence(prop, tier, seed, cfg, results, fnNames, nObl, map[string]interface{}{
 		"discharged": nDis, "stats": stats, "by_backend": byBackend, "models_replayed": replayed, "models_confirmed_on_real_code": confirmed, "solver_s": round3(solverTime), "gen_s": round3(genTime), "samples": samples, "known_hit": knownHit,
 	}, wall, violations, lemmaRes, lines)
